@@ -129,7 +129,7 @@ fn write_replay(dir: &Path, r: &ViolRec) -> PathBuf {
 /// Used by watchdogs: report a violation found by a timeout and leave at once (the offending
 /// computation cannot be cancelled).
 fn emergency_violation(dir: &Path, prop: u8, tier: &str, seed: i64, spec_json: &str, msg: &str, job: Option<(String, Value)>) -> ! {
-    let spec: graphs::Spec = serde_json::from_str(spec_json).unwrap_or(graphs::Spec { n: 0, edges: vec![], decl: vec![], redeclare: 0 });
+    let spec: graphs::Spec = serde_json::from_str(spec_json).unwrap_or(graphs::Spec { n: 0, edges: vec![], decl: vec![], redeclare: 0, prov: 0 });
     let cfg = match job {
         Some((text, j)) => explore::JobCfg::H(text, j),
         None => explore::JobCfg::B("rank_pops".into()),
@@ -170,7 +170,7 @@ fn spawn_build_watchdog(is_c18: bool, id: u8, tier: &str, seed: i64, dir: &Path)
             if is_c18 {
                 emergency_violation(&dir2, 18, &tier2, seed, &spec_json, &format!("build() still running after {secs:.0} s (limit {} s)", limit.as_secs()), None);
             } else {
-                let spec: graphs::Spec = serde_json::from_str(&spec_json).unwrap_or(graphs::Spec { n: 0, edges: vec![], decl: vec![], redeclare: 0 });
+                let spec: graphs::Spec = serde_json::from_str(&spec_json).unwrap_or(graphs::Spec { n: 0, edges: vec![], decl: vec![], redeclare: 0, prov: 0 });
                 eprintln!("MACHINERY: build() has been running for {secs:.0} s on {} - C18 reports this, check C{id:02} cannot continue", spec.short());
                 std::process::exit(2);
             }
